@@ -153,8 +153,11 @@ func (db *DB) updateWriteTxnPoolLocked(numTables int) {
 }
 
 func (db *DB) registerTable(table TableMeta) error {
+	verifPause("register-before-lock", table.Name())
+	defer verifPause("register-unlocked", table.Name())
 	db.mu.Lock()
 	defer db.mu.Unlock()
+	verifPause("register-locked", table.Name())
 
 	root := slices.Clone(*db.root.Load())
 
@@ -172,6 +175,7 @@ func (db *DB) registerTable(table TableMeta) error {
 	db.updateWriteTxnPoolLocked(len(root))
 
 	db.root.Store(&root)
+	verifPause("register-stored", table.Name())
 	return nil
 }
 
@@ -214,10 +218,13 @@ func (db *DB) WriteTxn(tables ...TableMeta) WriteTxn {
 	}
 
 	lockAt := time.Now()
+	verifPause("wtxn-before-lock", db.handleName)
 	txn.smus.Lock()
+	verifPause("wtxn-locked", db.handleName)
 	acquiredAt := time.Now()
 
 	txn.oldRoot = db.root.Load()
+	verifPause("wtxn-root-loaded", db.handleName)
 
 	// Clone the root. This new allocation will become the new root when
 	// we commit.
